@@ -677,6 +677,15 @@ def register(an):
         if not ty:
             return NotImplemented
         n = {'u8': 1, 'u16': 2, 'u32': 4, 'u64': 8, 'u128': 16, 'usize': 8, 'i8': 1, 'i16': 2, 'i32': 4, 'i64': 8, 'i128': 16, 'isize': 8}[ty]
+        x = args[0]
+        if x[0] == 'int' and not c['fn'].endswith('to_ne_bytes') and n <= 8:
+            # byte i = (x >> 8i) & 0xff: defined through the ordinary bit operators so that ranges and bit provenance follow
+            els = {}
+            for i in range(n):
+                sh = an.binop('Shr', x, V_const(8 * i), ty, frame, st) if i else x
+                b_ = an.binop('BitAnd', sh, V_const(0xff), ty, frame, st) if n > 1 else sh
+                els[i if c['fn'].endswith('to_le_bytes') else n - 1 - i] = b_
+            return ('array', n, els, None, None, 'u8')
         return ('array', n, {}, None, None, 'u8')
 
     @suffix('>::from_le_bytes', '>::from_be_bytes')
